@@ -10,6 +10,8 @@ See DESIGN.md 1.5.
 """
 from __future__ import annotations
 
+import sys as _sys
+_sys.setrecursionlimit(max(_sys.getrecursionlimit(), 50000))  # deep left-nested sums (hundreds of terms) are walked recursively
 import hashlib
 import inspect
 import json
@@ -819,6 +821,43 @@ def _validate(hdef, case, vals, seed, stats, use_defaults=True):
             break
 
 
+def bare(cls):
+    """An object of `cls` without running `__init__` (which needs a full model).  Attributes that the
+    `__init__` of the class or of a base class initialises with a literal (`self.x = None`,
+    `self.x: T = 0`, `self.flags = [False, False]` ...) are set to that literal first, so that a
+    harness keeps working -- and keeps seeing the real initial state -- when the code grows such
+    state; the harness then sets what it needs on top."""
+    import ast
+    import copy as _copy
+    import textwrap
+    obj = cls.__new__(cls)
+    for k in reversed(cls.__mro__):
+        init = k.__dict__.get("__init__")
+        if init is None or not hasattr(init, "__code__"):
+            continue
+        try:
+            tree = ast.parse(textwrap.dedent(inspect.getsource(init)))
+        except (OSError, TypeError, SyntaxError):
+            continue
+        for node in ast.walk(tree):
+            target = value = None
+            if isinstance(node, ast.Assign) and len(node.targets) == 1:
+                target, value = node.targets[0], node.value
+            elif isinstance(node, ast.AnnAssign) and node.value is not None:
+                target, value = node.target, node.value
+            if (isinstance(target, ast.Attribute) and isinstance(target.value, ast.Name)
+                    and target.value.id == "self"):
+                try:
+                    lit = ast.literal_eval(value)
+                except (ValueError, TypeError, SyntaxError, MemoryError, RecursionError):
+                    continue
+                try:
+                    object.__setattr__(obj, target.attr, _copy.deepcopy(lit))
+                except (AttributeError, TypeError):
+                    pass
+    return obj
+
+
 class Purifier:
     """Ackermannisation: replace every uninterpreted-function application by a fresh real
     constant and add functional-consistency constraints, so that z3 sees pure QF_NRA and
@@ -831,6 +870,10 @@ class Purifier:
         self.new_consistency = []
 
     def __call__(self, t):
+        return self._p(t)
+
+    def _p(self, t):
+        # (a plain method: python-to-python recursion does not consume the C stack, `self(c)` would)
         k = t.get_id()
         r = self.cache.get(k)
         if r is not None:
@@ -839,7 +882,7 @@ class Purifier:
         if not ch:
             r = t
         else:
-            nch = [self(c) for c in ch]
+            nch = [self._p(c) for c in ch]
             if z3.is_app(t) and t.decl().kind() == z3.Z3_OP_UNINTERPRETED:
                 name = t.decl().name()
                 key = name + "|" + "|".join(c.sexpr() for c in nch)
